@@ -655,7 +655,7 @@ class Interp:
                 return tuple(v.shape)
             if name in ("ndim", "T", "size", "dtype"):
                 return getattr(v, name)
-            if name in ("sum", "mean", "min", "max", "any", "all", "argmin", "transpose", "swapaxes",
+            if name in ("sum", "mean", "min", "max", "any", "all", "argmin", "argmax", "transpose", "swapaxes",
                         "reshape", "repeat", "flatten", "ravel", "copy", "astype"):
                 return getattr(v, name)
             if name == "persist":
@@ -709,6 +709,9 @@ class Interp:
         try:
             return getattr(v, name)
         except AttributeError:
+            if (type(v).__module__ or "").startswith("vt."):
+                # a library entry point outside the modelled subset is a limit of the checker, not behaviour of the code
+                raise ModelError("library entry point not modelled: %s.%s" % (type(v).__name__, name))
             raise PyRaise("AttributeError", "%s has no attribute %s" % (type(v).__name__, name))
 
     def setattr(self, v, name, val):
